@@ -125,6 +125,7 @@ class Interp:
         self.slice_len = None
         self.cur_dest_ty = None
         self.cur_state = None
+        self.summaries = None
         import models
         models.install(self)
 
@@ -180,7 +181,8 @@ class Interp:
             if not isinstance(n, int):
                 raise Unsupported('array of generic length')
             if n <= ARR_LIMIT:
-                return Arr(t, [self.top(d['e'], '%s[%d]' % (name, i) if name else None, depth + 1) for i in range(n)])
+                return Arr(t, [self.top(d['e'], '%s[%d]' % (name, i) if name else None, depth + 1) for i in range(n)],
+                           name if T.ENABLED else None)
             return ArrSum(t, self.top(d['e'], None, depth + 1), self.usize(n))
         if k == 'tuple':
             return Struct(t, [self.top(x, '%s.%d' % (name, i) if name else None, depth + 1) for i, x in enumerate(d['f'])])
@@ -239,6 +241,19 @@ class Interp:
             raise Unsupported('allocation kind %s' % a['k'])
         return a, None
 
+    def alloc_name(self, aid):
+        """a configuration-independent name for a constant allocation: the static's path or a content hash"""
+        nm = self.alloc_cache.setdefault('names', {}).get(aid)
+        if nm is None:
+            a = self.m.allocs.get(aid, {})
+            if a.get('k') == 'static':
+                nm = a['path']
+            else:
+                import hashlib
+                nm = 'k' + hashlib.sha1(a.get('bytes', '').encode()).hexdigest()[:12]
+            self.alloc_cache['names'][aid] = nm
+        return nm
+
     def alloc_bytes(self, aid):
         if aid not in self.alloc_cache:
             a, _ = self.alloc(aid)
@@ -268,7 +283,8 @@ class Interp:
             if n > ARR_LIMIT:
                 v = RawArr(t, aid, off, n, es)
             else:
-                v = Arr(t, [self.decode(aid, off + i * es, d['e']) for i in range(n)])
+                v = Arr(t, [self.decode(aid, off + i * es, d['e']) for i in range(n)],
+                        ('tbl:%s+%d' % (self.alloc_name(aid), off)) if T.ENABLED else None)
         elif k in ('tuple',) or (k == 'adt' and d['adt_kind'] == 'struct'):
             fts = d['f'] if k == 'tuple' else [f['t'] for f in d['variants'][0]['f']]
             offs = d.get('offs')
@@ -750,6 +766,17 @@ class Interp:
                 if lo > hi:
                     raise Unsupported('abstract index certainly out of range')
                 full = lo == 0 and hi == len(v.e) - 1
+                if T.ENABLED and v.name is not None and idx.term is not None:
+                    h = v.hull
+                    if h is None:
+                        h = v.e[0]
+                        for x in v.e[1:]:
+                            if x is not h:
+                                h = join(h, x, self.top)
+                        h = drop_term(h)
+                        v.hull = h
+                    if isinstance(h, AInt):
+                        return h.with_term(T.op('sel:' + v.name, h.w, idx.term))
                 if full and v.hull is not None:
                     return v.hull
                 r = v.e[lo]
@@ -794,7 +821,10 @@ class Interp:
                 for i in range(lo + 1, hi + 1):
                     r = join(r, self.decode(aid, loc.boff + i * es, loc.ty), self.top)
                 hc[key] = drop_term(r)
-            return hc[key]
+            r = hc[key]
+            if T.ENABLED and idx.term is not None and isinstance(r, AInt):
+                return r.with_term(T.op('tbl:%s+%d/%d' % (self.alloc_name(aid), loc.boff, es), r.w, idx.term))
+            return r
         v = self.decode(aid, loc.boff or 0, loc.ty) if loc.win is None else self.decode_slice(aid, loc)
         for step in loc.path:
             v = self.step_read(v, step, loc)
@@ -1583,6 +1613,8 @@ class Interp:
             self.obligation(frame, 'panic-call', self.panic_desc(name, t), t['l'], True,
                             'call to %s is reachable' % name)
             raise Diverge()
+        if self.summaries and name in self.summaries:
+            return self.summarise(frame, st, callee, name, args)
         mdl = self.models.get(name)
         if mdl is None and callee.get('intrinsic'):
             mdl = self.models.get('#' + callee['intrinsic'])
@@ -1603,6 +1635,34 @@ class Interp:
         if r is not NotImplemented:
             return r
         raise Unsupported('call to %s has no body and no model' % name)
+
+    def summarise(self, frame, st, callee, name, args):
+        """treat a callee as an uninterpreted function of its arguments (term engine)"""
+        rt = self.cur_dest_ty
+        ts = []
+        for a in args:
+            if isinstance(a, AInt):
+                ts.append(a.term if a.term is not None else (T.const(a.w, a.const) if a.const is not None else None))
+            elif isinstance(a, (Ptr, RawPtr)):
+                ts.append(T.sym('&%s' % (self.ptr_name(a),), 0))
+            else:
+                ts.append(getattr(a, 'term', None))
+        ii = self.int_info(rt)
+        okts = all(t is not None for t in ts)
+        v = self.top(rt)
+        sname = 'fn:' + self.summaries[name]
+        if isinstance(v, AInt):
+            return v.with_term(T.op(sname, ii[0], *ts) if okts else None)
+        if isinstance(v, Arr) and okts:
+            return Arr(v.ty, [e.with_term(T.op('%s#%d' % (sname, i), e.w, *ts)) if isinstance(e, AInt) else e
+                              for i, e in enumerate(v.e)])
+        return v
+
+    def ptr_name(self, p):
+        if isinstance(p, RawPtr):
+            return '%s+%d' % (self.alloc_name(p.aid), p.off)
+        nm = p.obj[1] if p.obj[0] == 'P' else str(p.obj)
+        return '%s%s' % (nm, ''.join('.%s' % (x,) for x in p.path))
 
     def panic_desc(self, name, t):
         return name.split('::')[-1] + (' via ' + ' '.join(t['x'])[:60] if t.get('x') else '')
